@@ -7,6 +7,7 @@ Necessary conditions; which local bound is the right one (observation O07) is no
 from .common import *
 
 EXPLANATION = __doc__
+TECHNIQUE = "static analysis of rustc MIR facts: dominance/guard and value-provenance rules plus exact symbolic decision tables of loop-free guard functions (exhaustive over weak orderings)"
 
 
 def run(ctx):
